@@ -798,12 +798,30 @@ func ruleC09_4(c *Ctx, r *Rep) {
 		})
 		ok := len(execs) > 0
 		for _, ci := range execs {
+			// the tx handed to Execute is the parameter of one runner closure, possibly handed on through private
+			// helpers (`publishOneMessage(ctx, tx, t, m)`): follow it to the closure, remembering the call site there
+			var site ssa.Instruction = ci
 			tx, isP := ci.Common().Args[2].(*ssa.Parameter)
+			for hops := 0; isP && hops < 3 && !closurePassedToRunner(tx.Parent()); hops++ {
+				cs := c.callersOf(tx.Parent())
+				idx := -1
+				for i, p := range tx.Parent().Params {
+					if p == tx {
+						idx = i
+					}
+				}
+				if len(cs) != 1 || idx < 0 || idx >= len(cs[0].Common().Args) {
+					isP = false
+					break
+				}
+				site = cs[0]
+				tx, isP = cs[0].Common().Args[idx].(*ssa.Parameter)
+			}
 			if !isP || !typeIs(tx.Type(), entPkg, "Tx") || !closurePassedToRunner(tx.Parent()) {
 				ok = false
 			}
 			// ...and that closure contains the loop over the request's messages (not the other way round)
-			if l := innermostLoop(loopsOf(ci.Parent()), ci.Block()); l == nil {
+			if l := innermostLoop(loopsOf(site.Parent()), site.Block()); l == nil {
 				ok = false
 			}
 		}
